@@ -899,6 +899,19 @@ def run_check(prop, spec, tier, seed, scratch, workdir):
                 samples.append(dict(obligation=ob["name"], claim=h.get("claim", ""), bound=h.get("bound", ""),
                                     exhaustive=bool(h.get("exhaustive")), backend="kani/cbmc", cbmc_checks=r["checks"], status=r["status"]))
             if r["status"] == "undecided":
+                # CBMC did not finish (typically: an edit replaced code the harness was sized for).
+                # Undecided -- unless the replay probe registered for the harness finds a concrete
+                # input that breaks the harness' claim on the real code.
+                if h.get("probe"):
+                    import probes
+                    okp, info = probes.run_probe(prop, dict(function=h["probe"]), scratch, seed)
+                    if okp:
+                        ob["status"] = "violation"
+                        ob["engine"] = "kani+probe"
+                        violations.append(dict(obligation="V:%s:contract-by-probe" % h["probe"], engine="verus", function=h["probe"],
+                                               message="Kani harness %s undecided (%s); the replay probe found an input that breaks its claim" % (h["name"], r["reason"][:200]),
+                                               detail=info.get("output", "")[:1500], rendered=""))
+                        continue
                 undecided.append("K:%s: %s" % (h["name"], r["reason"]))
             elif r["status"] == "violation":
                 fails = [f for f in r["failed"] if f["cls"] == "violation"]
